@@ -122,6 +122,18 @@ func (c *Ctx) Fail(kind string, in sx.V, key, what string) {
 	c.fails = append(c.fails, OracleFail{Kind: kind, Input: in.String(), What: what, Key: key})
 }
 
+// Note counts a case that only the property oracle on the implementation
+// decides (too large or not meaningful for the extracted model): it enters the
+// coverage classes and the evaluation count but is not sent to the model.
+func (c *Ctx) Note(kind, class string, in sx.V) {
+	k := kind + "|" + class + "|oracle-only"
+	c.classes[k]++
+	if _, ok := c.samples[k]; !ok {
+		c.samples[k] = kind + " " + trunc(in.String(), 300) + " (oracle on the implementation only)"
+	}
+	c.n++
+}
+
 func main() {
 	if len(os.Args) < 2 {
 		fmt.Fprintln(os.Stderr, "usage: run gen|exec ...")
